@@ -134,6 +134,17 @@ func runFileSink(rc *RunCtx, prop string, crash bool, faults bool) {
 		}
 	}
 
+	var preContent []byte
+	// a plain-named active file may already exist with another mode (an earlier
+	// run of the application): a configured Mode must be applied to it as well
+	if sink.Mode != 0 && (sink.TimestampOnlyOnRotate || !rotEnabled) && tp.Choose(4, "preexisting") == 0 {
+		os.MkdirAll(logDir, 0o700)
+		preContent = []byte("from an earlier run\n")
+		os.WriteFile(filepath.Join(logDir, sink.FileName), preContent, 0o666)
+		os.Chmod(filepath.Join(logDir, sink.FileName), 0o666)
+		simrt.Probe("fs.preexisting-active-file")
+	}
+
 	// fault plan (C13): each fs call of the sink fails with a small probability
 	var faultLog []string
 	if faults {
@@ -401,7 +412,7 @@ func runFileSink(rc *RunCtx, prop string, crash bool, faults bool) {
 	if prop == "C13" {
 		// nothing else to check for the fault scenario: the file may hold torn
 		// bytes of failed calls, which is allowed
-		checkGroundTruth(rc, prop, fs, logDir, faults)
+		checkGroundTruth(rc, prop, fs, logDir, faults, preContent)
 		return
 	}
 	// acknowledgement (real-time) order
@@ -421,7 +432,7 @@ func runFileSink(rc *RunCtx, prop string, crash bool, faults bool) {
 		checkRetention(rc, sim, sink, logDir, base, ext, events, pos, renamedPaths)
 		checkNameOrder(rc, sim, sink, logDir, base, ext, events, pos)
 	}
-	checkGroundTruth(rc, prop, fs, logDir, faults)
+	checkGroundTruth(rc, prop, fs, logDir, faults, preContent)
 }
 
 func describeRecs(fs *simrt.FSState, recs []int) string {
@@ -447,7 +458,7 @@ func activePath(sim *simrt.Sim) string {
 // checkGroundTruth: every inode's content equals the concatenation of the
 // write calls the wrapper recorded for it (the seam is truthful and nothing
 // bypassed it).
-func checkGroundTruth(rc *RunCtx, prop string, fs *simrt.FSState, logDir string, faults bool) {
+func checkGroundTruth(rc *RunCtx, prop string, fs *simrt.FSState, logDir string, faults bool, pre []byte) {
 	want := map[int][]byte{}
 	for _, r := range fs.Writes {
 		want[r.File] = append(want[r.File], r.Data...)
@@ -463,6 +474,9 @@ func checkGroundTruth(rc *RunCtx, prop string, fs *simrt.FSState, logDir string,
 		got, err := os.ReadFile(p)
 		if err != nil {
 			continue
+		}
+		if len(pre) > 0 && bytes.HasPrefix(got, pre) && bytes.Equal(got[len(pre):], w) {
+			continue // the file existed before the sink opened it
 		}
 		if !bytes.Equal(got, w) {
 			rc.Failf(prop+".file-content", "", "file %s holds %d bytes, the recorded writes to its inode add up to %d bytes", en.Name(), len(got), len(w))
